@@ -18,7 +18,9 @@ RULE = ('cases: (a) every code of the three code tables (live entry vs the sourc
         'few-letter alphabets, decorated with spaces and a "*" followed by arbitrary text - compared with '
         'the sum over residues, with a permutation of the same multiset and with the prefix route; '
         '(c) generated FASTA files (preamble text, blank lines, empty records, CRLF, missing final newline, '
-        'every typed extension and untyped ones).  distinct = distinct (type, multiset of codes) of '
+        'every typed extension and untyped ones), each read as an open file, a StringIO and as the same lines '
+        '(newline-terminated and bare) in a list, tuple, deque, re-iterable object, generator and list '
+        'iterator, with identical expected records.  distinct = distinct (type, multiset of codes) of '
         'sequences holding at least one code, distinct (table, code) rows, distinct (extension, record-shape) '
         'files; the empty string, all-space strings and strings starting with "*" are evaluated but not '
         'counted as non-trivial')
@@ -108,6 +110,8 @@ def finish(ctx):
     for ext in sorted(EXT_TYPE):
         ctx.require('ext.' + ext, 2, 'files with the typed extension %s must be loaded' % ext)
     ctx.require('ext.untyped', 2, 'files with an untyped extension must be loaded')
+    for form in ('list', 'tuple', 'generator', 'iterator', 'deque', 'reiterable'):
+        ctx.require('container.' + form, 2, 'read_fasta must be fed the lines of a text as a %s' % form)
 
 
 # ------------------------------------------------------------------ helpers
@@ -497,6 +501,37 @@ def _render_file(case):
     return text
 
 
+class _Lines(object):
+    """A re-iterable container of lines that is neither a list nor a tuple."""
+
+    def __init__(self, lines):
+        self._lines = list(lines)
+
+    def __iter__(self):
+        return iter(list(self._lines))
+
+
+def _line_containers(case):
+    """(label, argument for read_fasta) - the lines of the text as an open text file delivers them
+    ('\\n'-terminated, the last one bare when the text has no final newline) and as text.splitlines()
+    delivers them (bare), each as one-shot iterators and as re-iterable containers."""
+    import collections
+    bare = list(case['preamble'])
+    for rec in case['records']:
+        bare.append('>' + rec['header'])
+        bare.extend(rec['lines'])
+    ended = [l + '\n' for l in bare]
+    if ended and not case['final_eol']:
+        ended[-1] = bare[-1]
+    for label, lines in (('terminated lines', ended), ('bare lines', bare)):
+        yield 'list of ' + label, list(lines)
+        yield 'tuple of ' + label, tuple(lines)
+        yield 'generator of ' + label, (l for l in lines)
+        yield 'iterator over a list of ' + label, iter(list(lines))
+        yield 'deque of ' + label, collections.deque(lines)
+        yield 'reiterable object of ' + label, _Lines(lines)
+
+
 def check_fasta_file(ctx, case):
     from periodictable import fasta
     R = _state['ref']
@@ -548,6 +583,11 @@ def check_fasta_file(ctx, case):
         # read_fasta on an in-memory text (LF texts only: no newline translation there)
         if case['eol'] == '\n':
             cmp_records(list(fasta.read_fasta(io.StringIO(text))), 'read_fasta(StringIO)')
+        # read_fasta on the same text handed over as lines in other containers: a one-shot iterator and
+        # a re-iterable container of the same lines must give the same records
+        for route, fp in _line_containers(case):
+            ctx.count('container.' + route.split(' ')[0])
+            cmp_records(list(fasta.read_fasta(fp)), 'read_fasta(%s)' % route)
         # loadall: one Sequence per header, typed by the extension
         seqs = list(fasta.Sequence.loadall(path))
         ctx.evaluated(what='record-count')
